@@ -62,3 +62,14 @@ package conntrack
 //@   ensures res0 == ScanVerdictDelete && ctType(ctVal) != TypeNATForward ==> ctJudged && ctJudgedEntry == ctVal
 //@   ensures res0 == ScanVerdictDelete && !ctJudged ==> ctType(ctVal) == TypeNATForward
 //@   ensures res0 == ScanVerdictOK ==> res1 == ctLastSeen(ctVal)
+
+//@ -- end of a scan: a forward NAT entry that was parked together with its reverse key is queued for the kernel
+//@ -- cleaner WITH that reverse key and both timestamps (so the cleaner re-checks that the reverse entry saw no
+//@ -- traffic since the judgement); only an entry parked without a partner is queued alone
+//@ ghost c14Dummy KeyInterface
+//@ func (*Scanner).Scan
+//@   property C14
+//@   option safety off
+//@   option callpre off
+//@   ghost at call dummyKey: c14Dummy = res
+//@   ghost at call updateCleanupMap: check arg3 == ts && arg4 == revTS ; check revKey != c14Dummy ==> (arg1 == revKey && arg2 == k) ; check revKey == c14Dummy ==> (arg1 == k && arg2 == revKey)
